@@ -184,14 +184,16 @@ def scratch_spec(family_dir):
     return d
 
 
-def tlc_mc(spec_dir, module, cfg_path, workers=8, timeout=1200, coverage=False, reuse=True):
+def tlc_mc(spec_dir, module, cfg_path, workers=8, timeout=1200, coverage=False, reuse=True, deps=None):
     """Exhaustive model check.  Returns dict(generated, distinct, depth, ok, out, reused).
 
     The result is a pure function of the specification and the configuration (it does not depend on /repo), so
     it is memoised under .cache/mc keyed by the hash of every .tla file of the spec directory and of the cfg;
     `reused` says whether this invocation actually ran TLC."""
     h = hashlib.sha256()
-    for f in sorted(glob.glob(os.path.join(spec_dir, "*.tla"))) + [cfg_path]:
+    # deps: the modules the checked module (transitively) EXTENDS/INSTANCEs; default: every module of the directory
+    mods = sorted(glob.glob(os.path.join(spec_dir, "*.tla"))) if deps is None else [os.path.join(spec_dir, d + ".tla") for d in sorted(set(deps) | {module})]
+    for f in mods + [cfg_path]:
         h.update(os.path.basename(f).encode())
         h.update(open(f, "rb").read())
     h.update(module.encode())
